@@ -1182,6 +1182,7 @@ impl Interp {
                     .filter(|c| c.len() % 2 == 1)
                     .map(|c| (c.len() / 3).max(1)),
                 explicit_zero_ctx: spec.topic.len() % 2 == 1,
+                ctx_first: spec.topic.len() % 3 == 1,
                 split_at: content.as_ref().filter(|c| c.len() % 4 == 2).map(|c| c.len() / 2),
             };
             // an empty body means "no content" over HTTP
